@@ -20,6 +20,7 @@ RULE = (
     'prediction before a state-changing operation and the prediction really changed (> 1e-6) somewhere along the history'
     '; pass 5: directed histories with a prediction / training step under other jitter settings, a training step with part of the model frozen, and a rough prediction (no Cholesky, eval_cg_tolerance 0.3, rank-3 LOVE) between accurate ones'
     '; pass 6: exact Kronecker multitask family; training steps whose mode switches go through the objective object; partial state dicts (strict=False)'
+    "; pass 7: fantasy_train (a child trains, the parent is compared again), first prediction of a fantasy child against recomputation, set_data_refused (a strict set_train_data refused half-way, caught by the caller)"
 )
 REQUIRED = ["step_matches_fresh", "final_matches_fresh", "op_output_matches_fresh", "monitor:cache_add", "monitor:clear_cache"]
 ASSUMPTIONS = [
@@ -72,8 +73,10 @@ def cases(tier, seed):
         for seq in pick:
             yield {"family": fam, "seq": list(seq), "mseed": rnd.randrange(1000)}
         # other numerical settings at one call / a training step with part of the model frozen or under other settings
-        for new in ("pred_jitter", "train_step_frozen", "train_step_jitter", "pred_loose", "train_step_via_mll", "load_sd_partial", "fantasy_selfcheck", "fantasy_train"):
+        for new in ("pred_jitter", "train_step_frozen", "train_step_jitter", "pred_loose", "train_step_via_mll", "load_sd_partial", "fantasy_selfcheck", "fantasy_train", "set_data_refused"):
             if new in ("fantasy_selfcheck", "fantasy_train") and (fam in VAR_FAMS or fam in ("sgpr", "batch_nan", "default_iterative")):
+                continue
+            if new == "set_data_refused" and (fam in VAR_FAMS or fam in ("hadamard_two_inputs", "modellist")):
                 continue
             if fam == "batch_nan" and new == "pred_jitter":
                 continue
